@@ -80,7 +80,7 @@ Print Assumptions C01_unnest_position.
 Definition ex_q : query expr :=
   {| q_kind := QSelect [IExpr (EFld TA 0); IUnnest (EList [EFld TB 1; ELit (AStr [33%N])]); IStarA];
      q_where := Some (ENe (EFld TA 0) (ELit (AStr [122%N])));
-     q_join := Some {| j_kind := JInner; j_lhs := [LFld 0]; j_rhs := [RFld 0] |};
+     q_join := Some {| j_kind := JInner; j_lhs := [LFld 0]; j_rhs := [RFld 0]; j_bhdr := None |};
      q_group := None; q_order := None; q_distinct := DNo; q_top := None |}.
 Definition ex_A : list rec := [[AStr [49%N]]; [AStr [122%N]; ANone]; [AStr [50%N]; AStr [120%N]; AStr [121%N]]].
 Definition ex_B : list rec := [[AStr [49%N]; AStr [112%N]]; [AStr [49%N]; AStr [113%N]]; [AStr [50%N]; AStr [114%N]]].
